@@ -9,7 +9,7 @@ calculation at that step's reported state (bit-identical).  A model-sensitivity 
 """
 import math
 
-from .. import core, traces, universe as U
+from .. import core, solver, traces, universe as U
 from . import spaces
 
 ID = "C08"
@@ -39,6 +39,24 @@ def judge_entry(case):
     sensitive = Jo is not None and max(core.relerr(J[i], Jo[i]) for i in (0, 1)) > 1e-3
     y = J[0] / (J[0] + J[1])
     v = []
+    # the solver itself must honour the model on BOTH sides of the membrane (cross-comparison of entry points cannot
+    # see a slip in shared code): observe the last permeate composition through the seam and recompute the driving force
+    if mode != "vac" and mode[0] == "T":
+        opv = solver.ObservedPV(membrane=mem, mixture=mix).observe(budget=50000, detect=False)
+        so2, J2 = core.call(opv.calculate_partial_fluxes, feed_temperature=t, composition=comp, precision=prec, calculation_type=model, **kw)
+        if so2 == "ok" and opv._last_y is not None:
+            perm = (float(mem.get_permeance(t, mix.first_component).value), float(mem.get_permeance(t, mix.second_component).value))
+            pf = U.pyvaporation.get_partial_pressures(t, mix, comp, model)
+
+            def residual(side_model):
+                pp = U.pyvaporation.get_partial_pressures(kw["permeate_temperature"], mix, opv._last_y, side_model)
+                return max(abs(float(J2[i]) - perm[i] * (float(pf[i]) - float(pp[i]))) / (perm[i] * (abs(float(pf[i])) + abs(float(pp[i]))) + 1e-300) for i in (0, 1))
+
+            if residual(model) > 1e-9:
+                if U.has_model(mix, other) and residual(other) <= 1e-9:
+                    v.append(core.viol("C08/model_not_honoured/solver_permeate_side", "flux calculation asked for %s evaluates the permeate side with %s" % (model, other)))
+                else:
+                    v.append(core.viol("C08/solver_driving_force", "returned fluxes are not permeance x (feed - permeate partial pressure) with model %s on both sides (residual %.3g)" % (model, residual(model))))
 
     def mismatch(name, got, want, key="entry_points_disagree"):
         if Jo is not None and sensitive and want is J and all(core.bit_eq(got[i], Jo[i]) for i in (0, 1)):
